@@ -1181,7 +1181,7 @@ def api_forms_conn_stream(g, n=25, start_id=16000):
             fs = []
             for _ in range(rnd.randint(1, 5)):
                 nm, v = rnd.choice(names), rnd.choice(vals)
-                k = rnd.choice(['2', '3f', '3t', '3n', '30', '31', 'H', 'N', 'T', 'S'])
+                k = rnd.choice(['2', '3f', '3t', '3n', '30', '31', '3y', '32', '3e', 'H', 'N', 'T', 'S'])
                 fs.append('%s%s%s:%s:%s' % (k, rnd.choice('bs'), rnd.choice('bs'), hx(nm), hx(v)))
             ops.append('eapi %d %d %s %s' % (i, rnd.random() < 0.5, rnd.choice(['list', 'iter', 'tuple', 'gen']), ' '.join(fs)))
             ops.append('pipe %d %d %d' % (i, rnd.choice([0, 1]), i))
@@ -1205,3 +1205,131 @@ def empty_forms_stream(start_id=17000):
             ops.append('eapi %d 0 list 2bb:61:62' % i)
         groups.append(ids)
     return ops, groups
+
+
+# ====================================================================================================
+# round-3 additions
+# ====================================================================================================
+def enc_fail_stream(g, n=20, start_id=18000):
+    """encode() calls that raise part-way (a malformed header — a 1-tuple — after some good ones), observed by the
+    NEXT calls on the same encoder: exception paths must not leave the table half-updated"""
+    ops = []
+    rnd = g.rnd
+    for c in range(n):
+        i = start_id + c
+        ops.append('enew %d' % i)
+        size = rnd.choice([4096, 100, 70, 200])
+        if size != 4096:
+            ops.append('esize %d %d' % (i, size))
+        for b in range(rnd.randint(2, 5)):
+            fs = []
+            for _ in range(rnd.randint(1, 4)):
+                nm = rnd.choice([b'a', b'bb', b'cookie', b'k' * 10])
+                v = bytes([97 + rnd.randrange(26)]) * rnd.randint(0, 30)
+                fs.append('2bb:%s:%s' % (hx(nm), hx(v)))
+            if rnd.random() < 0.5:
+                fs.insert(rnd.randint(0, len(fs)), 'Xbb:%s:-' % hx(b'oops'))
+                if rnd.random() < 0.3:
+                    ops.append('esize %d %d' % (i, rnd.choice([64, 100, 4096])))
+            ops.append('eapi %d %d %s %s' % (i, rnd.random() < 0.5, rnd.choice(['list', 'gen', 'iter']), ' '.join(fs)))
+            if rnd.random() < 0.4:
+                ops.append('esize %d %d' % (i, rnd.choice([34, 66, 100, 4096])))
+        ops.append('eapi %d 0 list 2bb:%s:%s 2bb:%s:%s' % (i, hx(b'a'), hx(b'z' * 34), hx(b'fin'), hx(b'')))
+        ops.append('edump %d' % i)
+    return ops
+
+
+def with_debug_log(ops):
+    """the same operations with the `hpack` logger at DEBUG (a handler attached): output must not change"""
+    if not ops:
+        return ops
+    return [ops[0] + (' log=debug' if '#' in ops[0] else ' #log=debug')] + ops[1:]
+
+
+def dict_dupkey_stream(start_id=19000):
+    """dict containers holding the same name once as str and once as bytes (two different keys), and iterables
+    passed as one-shot generators while a size change is pending"""
+    ops = []
+    groups = []
+    i = start_id
+    cases = [
+        [('s', b'set-cookie', b'a=1'), ('b', b'set-cookie', b'b=2')],
+        [('b', b':authority', b'h1'), ('s', b':authority', b'h2'), ('s', b'x', b'1')],
+        [('s', b'k', b''), ('b', b'k', b''), ('s', b':path', b'/')],
+    ]
+    for items in cases:
+        ids = []
+        # variant 0: the equivalent list; variant 1: the dict
+        sp = [it for it in items if it[1].startswith(b':')] + [it for it in items if not it[1].startswith(b':')]
+        for variant in range(2):
+            i += 1
+            ids.append(i)
+            ops.append('enew %d' % i)
+            if variant == 0:
+                ops.append('eapi %d 0 list %s' % (i, ' '.join('2bb:%s:%s' % (hx(n), hx(v)) for _, n, v in sp)))
+            else:
+                ops.append('eapi %d 0 dict %s' % (i, ' '.join('D%sb:%s:%s' % (t, hx(n), hx(v)) for t, n, v in items)))
+        groups.append(ids)
+    # pending size change + first block given as list / generator / iterator / tuple / map-like
+    for size in (100, 0):
+        ids = []
+        for cont in ('list', 'gen', 'iter', 'tuple'):
+            i += 1
+            ids.append(i)
+            ops.append('enew %d' % i)
+            ops.append('esize %d %d' % (i, size))
+            ops.append('eapi %d 0 %s 2bb:%s:%s 2bb:%s:%s' % (i, cont, hx(b'first'), hx(b'1'), hx(b'second'), hx(b'2')))
+            ops.append('eapi %d 0 %s 2bb:%s:%s' % (i, cont, hx(b'first'), hx(b'1')))
+        groups.append(ids)
+    return ops, groups
+
+
+def utf8_tail_stream(start_id=19500):
+    """text mode on strings that END in a truncated multi-byte sequence, as names and as values, literal and indexed"""
+    ops = []
+    pairs = []
+    d = start_id
+    tails = [b'caf\xc3', b'x\xe2\x82', b'y\xf0\x9f\x98', b'\xc3', b'ok\xed\xa0', b'z\xf4\x90', b'fine\xc3\xa9']
+    for t in tails:
+        a, b = d + 1, d + 2
+        d += 2
+        pairs.append((a, b))
+        for x, raw in ((a, 1), (b, 0)):
+            ops.append('dnew %d' % x)
+            ops.append('ddec %d %d %s' % (x, raw, hx(bytes([0x40, 1, 0x6b, len(t)]) + t)))
+            ops.append('ddec %d %d be' % (x, raw))
+            ops.append('ddec %d %d %s' % (x, raw, hx(bytes([0x00, len(t)]) + t + b'\x01v')))
+            e = huff_encode(t)
+            ops.append('ddec %d %d %s' % (x, raw, hx(bytes([0x10, 1, 0x6b, 0x80 | len(e)]) + e)))
+    return ops, pairs
+
+
+def big_binary_conn_stream(g, start_id=19800):
+    """binary values whose Huffman form is far longer than the text (up to ~2x 64 KiB on the wire while the list
+    stays under the default 64 KiB limit), Huffman on and off"""
+    ops = []
+    rnd = g.rnd
+    i = start_id
+    for ln, fill in ((17500, bytes([10, 13, 22])), (29000, None), (16384, bytes([0xfe, 0xff]))):
+        for huff in (1, 0):
+            i += 1
+            ops.append('enew %d' % i); ops.append('dnew %d' % i)
+            v = bytes(rnd.randrange(256) for _ in range(ln)) if fill is None else bytes(rnd.choice(fill) for _ in range(ln))
+            ops.append('eenc %d %d %s:%s:0 %s:%s:1' % (i, huff, hx(b'blob'), hx(v), hx(b'k'), hx(v[:100])))
+            ops.append('pipe %d 1 %d' % (i, i))
+            ops.append('eenc %d %d %s:%s:0' % (i, huff, hx(b'after'), hx(b'1')))
+            ops.append('pipe %d 1 %d' % (i, i))
+    return ops
+
+
+def int_memoryview_truncations():
+    """truncated and over-long integers handed over as memoryview (as Decoder.decode does) and bytearray"""
+    ops = []
+    for N in (1, 4, 5, 6, 7, 8):
+        for k in (1, 5, 15, 16, 17, 18, 19, 20, 40):
+            data = bytes([0xff]) + b'\xff' * k
+            for ann in (' #buf=memoryview', ''):
+                ops.append('idec %s %d%s' % (hx(data), N, ann))
+            ops.append('idec %s %d #buf=memoryview' % (hx(data + b'\x00'), N))
+            ops.append('idec %s %d #buf=memoryview' % (hx(bytes([0xff]) + b'\x80' * k + b'\x00'), N))
+    return ops
